@@ -1095,9 +1095,21 @@ func (s *State) evalForExpression(fe *ast.ForExpression) object.Object {
 			if log.LogVerbose() {
 				log.LogVf("for %s is object.TRUE, running body", fe.Condition.Value().DebugString())
 			}
-			lastEval = s.evalInternal(fe.Body)
-			if rt := lastEval.Type(); rt == object.RETURN || rt == object.ERROR {
-				return lastEval
+			nextEval := s.evalInternal(fe.Body)
+			switch nextEval.Type() {
+			case object.ERROR:
+				return nextEval
+			case object.RETURN:
+				// break and continue work like in the other loop forms.
+				switch nextEval.(object.ReturnValue).ControlType {
+				case token.BREAK:
+					return lastEval
+				case token.CONTINUE:
+				default:
+					return nextEval
+				}
+			default:
+				lastEval = nextEval
 			}
 		case object.FALSE, object.NULL:
 			if log.LogVerbose() {
